@@ -59,15 +59,20 @@ class CtlParser:
         return out
 
 
-def observe_server(impl):
+def observe_server(impl, line=""):
     """Ordered observation tokens of a server run made with cfg `ev=1`: what accept / shutdown answered, the GOAWAY
     identifiers written, refusals (stop_sending + reset of a request stream), and whether a request shown to the
     application was then served (`Q=<i>:ok` = resolve_request returned it; `Q=<i>:<error>`; `Q=<i>:pending` if the
-    call never returned although the peer's request was complete)."""
+    call never returned although the peer's request was complete).  For the queue rules of the judge (D-08b): with
+    cfg `ops=1` `O=<i>` = the peer has opened request stream <i> (first `@o<i>` of the trace); `D=<i>` = the
+    application has dropped its handle of request <i> (`q<i>.dr=ok`); `S=<n>` in front of the answer of the k-th
+    `shutdown` = the count of the k-th `conn.S:<n>` op of the line (the task takes its commands in order)."""
     trace, summ = impl.split(" | ", 1)
     out = []
     ctl = CtlParser()
     stop = None
+    counts = [x.split(":", 1)[1] for x in line.split()[3:] if x.startswith("conn.S:")]
+    opened = set()
     for t in trace.split():
         m = re.match(r"^(w|stop|rst)(\d+):([0-9a-f]+)$", t)
         if stop is not None and not (m and m.group(1) == "rst" and int(m.group(2)) == stop[0]):
@@ -86,8 +91,19 @@ def observe_server(impl):
                     stop = None
                 else:
                     out.append("rst%d:%s" % (sid, arg))
-        elif t.startswith(("conn.A=", "conn.S=")):
+        elif t.startswith("conn.S="):
+            if counts:
+                out.append("S=%s" % counts.pop(0))
             out.append(t)
+        elif t.startswith("conn.A="):
+            out.append(t)
+        elif re.match(r"^@o\d+$", t):
+            sid = int(t[2:])
+            if sid % 4 == 0 and sid not in opened:
+                opened.add(sid)
+                out.append("O=%d" % sid)
+        elif re.match(r"^q\d+\.dr=ok$", t):
+            out.append("D=%s" % t[1:t.index(".")])
         else:
             q = re.match(r"^q(\d+)\.res=(.*)$", t)
             # `no-task` is the interpreter's answer to an op without addressee (the request was never shown to the
@@ -175,9 +191,15 @@ class C08(Prop):
                   "oracle (ids valid client-bidi and never increasing; an arrival is surfaced iff below the last id sent; no id "
                   "surfaced earlier is at or above an id sent later — the last clause below the saturation point 2^60-1); client: "
                   "H3_ID_ERROR exactly for a non-request id or an id larger than before, and once a GOAWAY was processed send_request "
-                  "returns RemoteClosing without opening a stream, for ever; a request in progress is served (resolve_request "
-                  "returns it) in every state of the shutdown; accept answers None — also right after a refusal during a local "
-                  "shutdown — exactly when no request shown earlier is still in progress")
+                  "returns RemoteClosing without writing a request, for ever — at both gates: a call made then, and a call that was "
+                  "waiting for stream credit and gets its stream then (send_request is two events, call / stream opened; D-08c); a "
+                  "request in progress is served (resolve_request returns it) in every state of the shutdown; accept answers None "
+                  "exactly when no request shown earlier is still in progress, every stream waiting in the transport is one the "
+                  "filter refuses and a stream was refused in this poll or the peer's GOAWAY was processed — and then every waiting "
+                  "stream has had its outcome and the queue is empty (D-08b); a shutdown(n) that answers Ok leaves a GOAWAY in force "
+                  "with an identifier not above the one it computed; over whole histories with distinct arrivals the judged history "
+                  "(observations + arrived / completed / shutdownCalled) satisfies the oracle's queue rules: one outcome per stream, "
+                  "None only when every opened stream has its outcome and every request shown is done, shutdown = Ok within its bound")
     level_note = ("trusted: Lean kernel + 3 standard axioms; hand model tied to the code by running real h3::server / h3::client "
                   "objects over SimQuic on the same scenario lines (Drv/C08.lean plays the harness tasks); the accept/reject line is "
                   "judged where accept() takes the stream from the transport (R-08); shutdown futures are awaited to completion and "
@@ -185,14 +207,19 @@ class C08(Prop):
     rule = ("cases: server histories with K<=5 (quick) / K<=6 requests, arrivals in order, reversed and swapped, accept driven by "
             "explicit conn.A calls or the accept loop conn.AL, conn.S:n with n in 0..3 inserted at every position and repeated, "
             "completions (HEADERS, resolve, drop), a peer GOAWAY at a random position, plus seeded random histories; observed per "
-            "line, in order: accept / shutdown answers, GOAWAY ids written, refusals (stop_sending + reset codes), and for every "
+            "line, in order: accept / shutdown answers (with the count n of the call: S=<n>), GOAWAY ids written, refusals (stop_sending + "
+            "reset codes), the streams the peer opened (O=<i>, cfg ops=1) and the requests the application dropped (D=<i>) — the judge's "
+            "queue rules (H3.Spec.Goaway.okQueue): one outcome per stream, None only when every opened stream has had its outcome and "
+            "every request shown is done, shutdown = Ok only with a GOAWAY in force within the bound of its count; every order of 3 / 4 "
+            "arrivals around conn.S:n (n <= 3) at every position; and for every "
             "resolve_request of a request shown to the application whether it returned the request (Q=<i>:ok; an error or a "
             "call that never returns is `not served`) — resolve after local shutdown / peer GOAWAY / refusals / None / H3_ID_ERROR; "
             "the judge (engine goawayj = H3.Spec.Goaway.okObs) refuses unknown tokens (BAD:unknown-token); client (cfg ev=1): all "
             "received-id sequences of length<=4 over {0,3,4,8,64} plus sequences with ids 1,2,5,12,16383,16384, driver started "
             "early/late, send_request before/between/after; every send_request result carries the request streams written while "
             "it ran (a refused request must have written nothing: snd.R=err:rclosing/w=-), plus the streams written at the end "
-            "(streams=<written>/<opened empty>); non-trivial = the implementation wrote a GOAWAY, refused a stream, "
+            "(streams=<written>/<opened empty>); client lines with stream credit (cfg bc=<n>, grants gb<n>): calls waiting in poll_open_bidi "
+            "across GOAWAYs, grants before / after the GOAWAY, several calls queued; non-trivial = the implementation wrote a GOAWAY, refused a stream, "
             "returned None/err from accept, or the client driver/send_request reacted to a GOAWAY")
     trusted = ["SimQuic hands streams to accept in the order of the scenario's `o<sid>` ops (QUIC may reorder arrivals; the order is a quantified input)"]
     assumptions = ["peer-opened bidirectional streams have client-initiated bidirectional IDs below 2^62 (transport contract)",
@@ -207,7 +234,7 @@ class C08(Prop):
                 continue
             w = l.split()
             if len(w) > 1 and w[1] == "server":
-                toks, pend = observe_server(o)
+                toks, pend = observe_server(o, l)
                 idx.append(k)
                 hist.append(toks)
                 pends.append(pend)
@@ -222,7 +249,8 @@ class C08(Prop):
 
     # ------------------------------------------------------------------ generators
     def server_line(self, ops, pre=True, seed=0):
-        cfg = "g0,ev=1" if seed == 0 else "g0,ev=1,seed=%d" % seed
+        # ops=1: the peer's `o<sid>` ops are in the trace, so that the history carries `O=<sid>` (queue rules of the judge)
+        cfg = "g0,ev=1,ops=1" if seed == 0 else "g0,ev=1,ops=1,seed=%d" % seed
         return " ".join(["goaway", "server", cfg] + (["o2", "s2:000400"] if pre else []) + ops)
 
     def cases(self, tier, rng):
@@ -237,7 +265,37 @@ class C08(Prop):
         def done(i):
             return ["s%d:%s" % (i, HOK), "q%d.res" % i, "q%d.dr" % i]
 
-        # D-08 witnesses first
+        # D-08b witnesses first: an acceptable stream queued behind a refused one (shutdown(1) promised request 0)
+        hdr = lambda i: "s%d:%s" % (i, HOK)
+        add(self.server_line(["conn.S:1", "o4", "o0", hdr(4), hdr(0), "conn.A"], pre=False))
+        add(self.server_line(["conn.S:1", "o4", "o0", "conn.A", "conn.A", hdr(0), "q0.res", "q0.dr", "conn.A"], pre=False))
+        add(self.server_line(["conn.AL", "conn.S:2", "o8", "o12", "o4", "o0"] + done(0) + done(4), pre=False))
+        add(self.server_line(["o0", "conn.A"] + done(0) + ["conn.S:1", "o12", "o8", "o4", "conn.A", "conn.A"] + done(4) + ["conn.A"], pre=False))
+        # out-of-order arrivals around every shutdown(n): every order of 3 / 4 streams, the call in front of each arrival
+        # and behind the last, accept called late / in a loop / after every arrival; then everything shown is completed
+        for n in range(4):
+            for ids in list(itertools.permutations([0, 4, 8])) + list(itertools.permutations([0, 4, 8, 12])):
+                if len(ids) == 4 and not big and rng.random() < 0.5:
+                    continue
+                for pos in range(len(ids) + 1):
+                    for style in ("late", "loop", "each"):
+                        ops = ["conn.AL"] if style == "loop" else []
+                        for j, i in enumerate(ids):
+                            if j == pos:
+                                ops.append("conn.S:%d" % n)
+                            ops.append("o%d" % i)
+                            if style == "each":
+                                ops.append("conn.A")
+                        if pos == len(ids):
+                            ops.append("conn.S:%d" % n)
+                        if style == "late":
+                            ops += ["conn.A"] * (len(ids) + 1)
+                        for i in ids:
+                            ops += done(i)
+                        if style != "loop":
+                            ops += ["conn.A", "conn.A"]
+                        add(self.server_line(ops, pre=False, seed=rng.choice([0, 0, 0, 1, 7])))
+        # D-08 witnesses
         add(self.server_line(["o0", "conn.A", "conn.S:0"]))
         for n in BIG_COUNTS:
             add(self.server_line(["o0", "conn.A"] + ["conn.S:%d" % n, "o4", "conn.A", "conn.S:1", "o8", "conn.A", "conn.S:0"]))
@@ -254,7 +312,6 @@ class C08(Prop):
 
         # "every request below it is still served": resolve_request AFTER the shutdown began — local shutdown(0) / (1),
         # the peer's GOAWAY, both, after a refusal, after accept answered None, on a failed connection (H3_ID_ERROR)
-        hdr = lambda i: "s%d:%s" % (i, HOK)
         add(self.server_line(["o0", "conn.A", "conn.S:0", hdr(0), "q0.res", "q0.dr", "conn.A"]))
         add(self.server_line(["o0", "conn.A", "s2:070100", "conn.A", hdr(0), "q0.res", "q0.dr"]))
         add(self.server_line(["o0", "conn.A", "conn.S:1", "o4", "conn.A", "o8", "conn.A", hdr(4), "q4.res", hdr(0), "q0.res",
@@ -350,6 +407,52 @@ class C08(Prop):
                 ops += ["conn.A"] * rng.randrange(0, 3)
             add(self.server_line(ops, pre=True, seed=rng.choice([0, 0, 1, 2, 3])))
 
+        # client, D-08c: send_request waits for stream credit (cfg bc=<n>, grant gb<n>) across a GOAWAY.  The witness first,
+        # then every short arrangement, then random interleavings
+        add(" ".join(["goaway", "client", "g0,ev=1,bc=0", "drv.W", REQ, "o3", "s3:000400", "s3:070100", "gb1", REQ]))
+        for bc in (0, 1, 2):
+            for calls in (1, 2, 3):
+                for g in (0, 4, 8, 64):
+                    for order in ("goaway-grant", "grant-goaway", "goaway-only", "two-goaways"):
+                        for drvw in ("early", "mid", "late", "never"):
+                            for grant in (1, 2):
+                                ops = ["drv.W"] if drvw == "early" else []
+                                ops += ["o3", "s3:000400"] + [REQ] * calls
+                                if drvw == "mid":
+                                    ops.append("drv.W")
+                                ga = ["s3:" + goaway_frame(g)]
+                                if order == "two-goaways":
+                                    ga.append("s3:" + goaway_frame(max(g - 4, 0)))
+                                gr = ["gb%d" % grant]
+                                ops += {"goaway-grant": ga + gr, "grant-goaway": gr + ga, "goaway-only": ga, "two-goaways": ga + gr}[order]
+                                if drvw == "late":
+                                    ops.append("drv.W")
+                                ops += [REQ, "gb1", "gb1"]
+                                if big or rng.random() < 0.5:
+                                    add(" ".join(["goaway", "client", "g0,ev=1,bc=%d" % bc] + ops))
+        for _ in range(8000 if big else 1500):
+            ops = ["drv.W"] if rng.random() < 0.6 else []
+            ops += ["o3", "s3:000400"]
+            if rng.random() < 0.5:
+                ops.insert(rng.randrange(len(ops) + 1), REQ)
+            last = None
+            for _s in range(rng.randrange(3, 10)):
+                r = rng.random()
+                if r < 0.4:
+                    ops.append(REQ)
+                elif r < 0.65:
+                    ops.append("gb%d" % rng.choice([1, 1, 2]))
+                elif r < 0.9:
+                    # never larger than the one before: H3_ID_ERROR closes the connection, a call that waits then is
+                    # outside this model (the id rules have their own lines below)
+                    g = rng.choice([0, 4, 8, 64])
+                    last = g if last is None else min(last, g)
+                    ops.append("s3:" + goaway_frame(last))
+                elif "drv.W" not in ops:
+                    ops.append("drv.W")
+            ops += [REQ, "gb1"]
+            add(" ".join(["goaway", "client", "g0,ev=1,bc=%d%s" % (rng.choice([0, 0, 1, 2]), rng.choice(["", "", ",seed=1", ",seed=5"]))] + ops))
+
         # client: all received-id sequences
         base_ids = [0, 3, 4, 8, 64]
         extra_ids = [1, 2, 5, 12, 16383, 16384]
@@ -399,7 +502,7 @@ class C08(Prop):
             nr = sum(1 for x in t if x.startswith("R="))
             return "server/%s/goaways=%d/rej=%d/none=%d/err=%d" % (t[0].split(":")[0], min(ng, 3), min(nr, 3),
                                                                    int("conn.A=none" in t), int(any(x.startswith("conn.A=err") for x in t)))
-        return "client/err=%d/rclosing=%d/opened=%d" % (int(any(x.startswith("drv.W=err") for x in t)), int(any(x.startswith("snd.R=err:rclosing") for x in t)),
+        return "client/credit=%d/emptystream=%d/err=%d/rclosing=%d/opened=%d" % (int(",bc=" in line), int(any(x.startswith("streams=") and not x.endswith("/-") for x in t)), int(any(x.startswith("drv.W=err") for x in t)), int(any(x.startswith("snd.R=err:rclosing") for x in t)),
                                                         int(any(x.startswith("snd.R=req") for x in t)))
 
     def trivial(self, line, impl):
@@ -407,6 +510,10 @@ class C08(Prop):
         if not t or "pend=" not in t[-1]:
             return True
         return not any(x.startswith(("G=", "R=", "conn.A=none", "conn.A=err", "drv.W=err", "snd.R=err:rclosing")) for x in t)
+
+    def queue_rules_exercised(self, lines, impls):
+        """how many generated lines put the judge's queue rules to work (for the evidence)"""
+        return sum(1 for l in lines if ",bc=" in l), sum(1 for l in lines if " server " in l and "ops=1" in l)
 
     def shrink_candidates(self, line):
         w = line.split()
